@@ -17,6 +17,9 @@ VNone   == Leaf("none")
 VList   == Leaf("L1")                                            \* [1, 2]
 VTuple  == Leaf("T1")                                            \* (1, 2)
 VListNS == Leaf("LN")                                            \* [Namespace(a=1)]
+VEmptyT == Leaf("T0")                                            \* ()   -- empty and falsy leaves are values like any other
+VEmptyL == Leaf("L0")                                            \* []
+VFalse  == Leaf("false")                                         \* False
 VDict   == T(<< << << >>, "dict">>, << <<"a">>, "i1">> >>)         \* {'a': 1}
 VDictC  == T(<< << << >>, "dict">>, << <<"items">>, "i2">> >>)     \* {'items': 2}
 VDictNS == T(<< << << >>, "dict">>, << <<"a">>, "ns">>, << <<"a", "a">>, "i1">> >>)   \* {'a': Namespace(a=1)}
@@ -24,7 +27,7 @@ VEmptyD == T(<< << << >>, "dict">> >>)                            \* {}
 VNS     == T(<< << << >>, "ns">>, << <<"a">>, "i2">> >>)           \* Namespace(a=2)
 VNSC    == T(<< << << >>, "ns">>, << <<"items">>, "i1">>, << <<"a">>, "ns">>, << <<"a", "items">>, "none">> >>)  \* Namespace(items=1, a=Namespace(items=None))
 VEmptyN == EmptyNS
-SetVals == {VInt, VNone, VList, VTuple, VListNS, VDict, VDictC, VDictNS, VEmptyD, VNS, VNSC, VEmptyN}
+SetVals == {VInt, VNone, VList, VTuple, VListNS, VEmptyT, VEmptyL, VFalse, VDict, VDictC, VDictNS, VEmptyD, VNS, VNSC, VEmptyN}
 Dflt    == Leaf("dflt")
 
 \* update(Namespace) arguments: what value.items() yields, in order
